@@ -80,15 +80,20 @@ def regenerate():
             msgs.append(f"tools/{tool} could not translate the working tree:\n{out.strip()}")
     gen = os.path.join(LEAN, "SemaModel", "Generated")
     os.makedirs(gen, exist_ok=True)
-    if ok:
-        new = set(os.listdir(tmp))
-        for f in os.listdir(gen):
-            if f not in new:
-                os.remove(os.path.join(gen, f))
-        for f in new:
-            a, b = os.path.join(tmp, f), os.path.join(gen, f)
-            if not os.path.exists(b) or open(a, "rb").read() != open(b, "rb").read():
-                shutil.copyfile(a, b)
+    # Every module that was produced is installed; a module that was NOT produced on this run (its tool
+    # refused the working tree, wholly or for that module) is removed, never kept from an earlier run:
+    # the proof modules and drivers that import it then fail to build, and only those.
+    new = set(os.listdir(tmp))
+    for f in os.listdir(gen):
+        if f not in new:
+            os.remove(os.path.join(gen, f))
+            if ok:
+                continue
+            msgs.append(f"Generated/{f} was not produced on this run and has been removed")
+    for f in new:
+        a, b = os.path.join(tmp, f), os.path.join(gen, f)
+        if not os.path.exists(b) or open(a, "rb").read() != open(b, "rb").read():
+            shutil.copyfile(a, b)
     shutil.rmtree(tmp, ignore_errors=True)
     from verifcore import genmain
     genmain.generate(LEAN)
@@ -174,8 +179,17 @@ def build_harness(name):
     return rc == 0, o, out
 
 
+def driver_target(pid):
+    return "semadriver_" + pid.lower()
+
+
+def driver_exe(pid):
+    """the compiled model of ONE property (lean/Main<pid>.lean); accepts the property id as an optional first argument"""
+    return os.path.join(LEAN, ".lake", "build", "bin", driver_target(pid))
+
+
 def run_driver(pid, ops_path, out_path, extra_args=()):
-    exe = os.path.join(LEAN, ".lake", "build", "bin", "semadriver")
+    exe = driver_exe(pid)
     with open(ops_path) as fin, open(out_path, "w") as fout:
         p = subprocess.run([exe, pid, *extra_args], stdin=fin, stdout=fout, stderr=subprocess.PIPE, text=True)
     return p.returncode == 0, p.stderr
@@ -245,9 +259,10 @@ def main(argv):
     compared = 0
 
     with Lock():
-        ok, msg = regenerate()
-        if not ok:
-            broken.append(("translator", "tools/go2lean|facts", msg))
+        gen_ok, gen_msg = regenerate()
+        gen_fatal = (not gen_ok) and gen_msg.startswith("building tools/")
+        if gen_fatal:
+            broken.append(("translator", "tools (build)", gen_msg))
         # proof obligations
         ok, out, errs, dt = lake_build(spec["lean_modules"])
         log(f"lake build {' '.join(spec['lean_modules'])}: {'ok' if ok else 'FAILED'} ({dt:.1f}s)")
@@ -286,8 +301,17 @@ def main(argv):
             if rc != 0:
                 broken.append(("leanchecker", "leanchecker", o[-3000:]))
         # driver
-        dok, dout, _, dt = lake_build(["semadriver"])
-        log(f"lake build semadriver: {'ok' if dok else 'FAILED'} ({dt:.1f}s)")
+        dok, dout, _, dt = lake_build([driver_target(pid)])
+        log(f"lake build {driver_target(pid)}: {'ok' if dok else 'FAILED'} ({dt:.1f}s)")
+        if not gen_ok and not gen_fatal:
+            # A translator / fact extractor refused (part of) the working tree; what it could not produce has been
+            # removed from Generated/.  That breaks THIS property's tie exactly if one of its proof modules or its
+            # model driver imports a removed module, i.e. no longer builds.
+            if not dok or any(b[0] == "proof" for b in broken):
+                broken.insert(0, ("translator", "tools/go2lean|facts", gen_msg))
+            else:
+                log("note: a translator / fact extractor refused part of the working tree; no module imported by this property's proofs or model driver is affected")
+                notes.append("translator refused part of the tree, unrelated to this property: " + gen_msg[:600])
         # harness
         hok, hout, hbin = build_harness(spec["harness"])
         if not hok:
@@ -314,7 +338,7 @@ def main(argv):
                 else:
                     disagreements, compared = diff_lines(os.path.join(rundir, "ops.txt"), os.path.join(rundir, "impl.txt"), os.path.join(rundir, "model.txt"))
             else:
-                broken.append(("driver-build", "semadriver", dout[-3000:]))
+                broken.append(("driver-build", driver_target(pid), dout[-3000:]))
     if disagreements:
         broken.append(("correspondence", f"{len(disagreements)}+ of {compared} op lines differ", json.dumps(disagreements[:5], indent=1)))
 
@@ -408,7 +432,7 @@ def main(argv):
 def replay(pid, spec, path):
     with Lock():
         hok, hout, hbin = build_harness(spec["harness"])
-        dok, dout, _, _ = lake_build(["semadriver"])
+        dok, dout, _, _ = lake_build([driver_target(pid)])
     if not hok:
         print(hout)
         return 2
